@@ -19,6 +19,10 @@ type plan struct {
 	strDepth  int
 	pairDepth int // all pairs of slots x alphabet for depth <= pairDepth
 	alphabet  []string
+	// aliasSides: also visit, for every term with a side argument, the
+	// variant whose side argument has the same message strings as the
+	// wrapped error (same mark) but different annotation strings
+	aliasSides bool
 }
 
 func (p plan) String() string {
@@ -44,6 +48,11 @@ func eachTerm(c *core.Ctx, r *core.Result, p plan, f func(t *tm.Term)) {
 	run := func(sp tm.Space) bool {
 		_, done := sp.ForEach(func(i int64) bool { return c.Mine(base + i) }, c.Expired, func(i int64, t *tm.Term) {
 			f(t)
+			if p.aliasSides {
+				if a := tm.AliasSide(t); a != nil {
+					f(a)
+				}
+			}
 			d := t.Depth()
 			if d <= p.strDepth {
 				tm.StringVariants(t, p.alphabet, func(_ int, _ string, v *tm.Term) { f(v) })
